@@ -8,19 +8,22 @@ import "unsafe"
 // the same events with the same per-object operation orders, hence (the
 // program being deterministic apart from scheduling) reach the same state.
 type hbState struct {
-	obj map[int][]uint32
+	obj [][]uint32 // indexed by object id
 	fp  uint64
 }
 
 //go:norace
-func newHB() *hbState { return &hbState{obj: map[int][]uint32{}} }
+func newHB() *hbState { return &hbState{} }
 
 //go:norace
 func (h *hbState) newThread(t *thread, parent int) {
 	e := cur
 	if parent >= 0 && e != nil && parent < len(e.threads) {
 		p := e.threads[parent]
-		t.vc = append([]uint32(nil), p.vc...)
+		t.vc = make([]uint32, len(p.vc))
+		for i := 0; i < len(p.vc); i++ {
+			t.vc[i] = p.vc[i]
+		}
 	}
 	for len(t.vc) <= t.id {
 		t.vc = append(t.vc, 0)
@@ -47,8 +50,18 @@ func (h *hbState) event(t *thread, obj int, op Op) {
 	}
 	t.vc[t.id]++
 	if obj != 0 {
+		for len(h.obj) <= obj {
+			h.obj = append(h.obj, nil)
+		}
 		t.vc = vcJoin(t.vc, h.obj[obj])
-		h.obj[obj] = append(h.obj[obj][:0], t.vc...)
+		o := h.obj[obj]
+		if len(o) != len(t.vc) {
+			o = make([]uint32, len(t.vc))
+		}
+		for i := 0; i < len(t.vc); i++ {
+			o[i] = t.vc[i]
+		}
+		h.obj[obj] = o
 	}
 	// hash of (thread, op, obj, vc)
 	x := uint64(14695981039346656037)
@@ -71,6 +84,19 @@ func mix(x, v uint64) uint64 {
 	x ^= v
 	x *= 1099511628211
 	return x
+}
+
+// clock folds a timer firing into the fingerprint. Firings do not commute
+// with anything: the fingerprint after the firing depends on the whole
+// fingerprint before it.
+//
+//go:norace
+func (h *hbState) clock(n int, now int64) {
+	x := mix(mix(h.fp, uint64(n)), uint64(now))
+	x ^= x >> 29
+	x *= 0xbf58476d1ce4e5b9
+	x ^= x >> 32
+	h.fp = x
 }
 
 //go:norace
